@@ -90,7 +90,7 @@ package hsrv
 // ---- static files (C09)
 //@ func Server.fileHandler(s, w, r)
 //@   locals s w r sl f err fi
-//@   props C09
+//@   props C09 C10
 //@   ghost nNotice int = 0
 //@   ghost nOpen int = 0
 //@   ghost nErr int = 0
